@@ -446,3 +446,15 @@ def configfile_response_shipped(plat):
         peer.handle(b"FILES,MrSt_C01.xml,MrSt_S01.xml", SENDER)
         ensures("short-name-a-spa-reports-is-mapped", peer.plateform_key.lower() == "mrsteam")
     cover("reached-end", True)
+
+
+@harness(prop="C04", target="geckolib.const:GeckoConstants", name="wire_text_encoding_maps_every_byte_to_itself")
+def wire_text_encoding_maps_every_byte_to_itself():
+    """identifiers and names travel as single bytes: the message encoding is the identity between byte values and code
+    points 0..255 (ground: all 256 values both ways through CPython's codec) -- the symbolic string model relies on it"""
+    from geckolib.const import GeckoConstants
+    enc = GeckoConstants.MESSAGE_ENCODING
+    for b in range(256):
+        ensures("byte-decodes-to-its-own-code-point", bytes([b]).decode(enc) == chr(b))
+        ensures("code-point-encodes-to-its-own-byte", chr(b).encode(enc) == bytes([b]))
+    cover("reached-end", True)
